@@ -241,6 +241,103 @@ def rule_OD8(rep, prog):
                 "no dispatch_group_leave on the fd_entry's barrier group: barriers would never run", sample={"leaves": len(leaves)})
 
 
+def _handler_calls(prog, fn):
+    """indirect calls of the client's io handler block: (block, bool done, data, int error)"""
+    return [c for c in fn.all_insts() if c.op == "call" and "icallee" in c.d and len(c.ops) == 4 and (c.ops[1][0] in ("c", "i"))]
+
+
+def rule_TB10(rep, prog):
+    rid = rep.rule("C14-TB10", "what an operation that completes early hands back: a read that failed reports no data, a write that did NOT fail reports no unwritten "
+                   "data, a write that failed (e.g. the channel was stopped) reports all of its data as unwritten - at every early-completion site alike; a read "
+                   "that ends with an error first delivers the bytes it had already taken from the descriptor", floor=3)
+    k = consts.get(["DOP_DIR_READ", "DOP_DIR_WRITE"], unit="io")
+    R, W = k["DOP_DIR_READ"], k["DOP_DIR_WRITE"]
+    want = {(R, 0): "data", (R, 5): "null", (W, 0): "null", (W, 5): "data"}
+    n = 0
+    for fn in prog.all_functions():
+        if not fn.name.startswith(("___dispatch_operation_enqueue_block_invoke", "___dispatch_operation_create_block_invoke")):
+            continue
+        hs = [c for c in _handler_calls(prog, fn) if c.ops[1][0] == "c" and c.ops[1][1] == 1]
+        if len(hs) != 1:
+            continue
+        h = hs[0]
+        errl = fn.inst(h.ops[3])
+        if errl is None or errl.op != "load" or root_ptr(fn, errl.d["ptr"]["base"]) != ("a", 0):
+            continue
+        eoff = errl.d["ptr"]["off"]
+        # the other captured int that is compared with the direction constants
+        doffs = set()
+        for i in fn.all_insts():
+            if i.op == "icmp" and i.ops[1][0] == "c" and i.ops[1][1] in (R, W):
+                l = fn.inst(i.ops[0])
+                if l is not None and l.op == "load" and root_ptr(fn, l.d["ptr"]["base"]) == ("a", 0) and l.d["ptr"]["off"] != eoff:
+                    doffs.add(l.d["ptr"]["off"])
+        if len(doffs) != 1:
+            continue
+        doff = doffs.pop()
+        n += 1
+        rep.saw(fn)
+        got = {}
+        for (d_, e_), exp in sorted(want.items()):
+            env = {}
+            for l in fn.all_insts():
+                if l.op == "load" and root_ptr(fn, l.d["ptr"]["base"]) == ("a", 0):
+                    if l.d["ptr"]["off"] == eoff:
+                        env[l.id] = e_
+                    elif l.d["ptr"]["off"] == doff:
+                        env[l.id] = d_
+            hit, env = concrete_walk(fn, env, lambda i: i is h)
+            if hit is None:
+                got[(d_, e_)] = "?"
+                continue
+            v = h.ops[2]
+            val = env.get(v[1]) if v[0] == "i" else None
+            if v[0] == "n" or val == 0:
+                got[(d_, e_)] = "null"
+            elif val is None and v[0] == "i":
+                x = ceval(fn, v, {k_: vv for k_, vv in env.items() if not isinstance(vv, tuple)})
+                got[(d_, e_)] = "null" if x == 0 else "data"
+            else:
+                got[(d_, e_)] = "data"
+        bad = {kk: vv for kk, vv in got.items() if vv != want[kk]}
+        rep.require(rid, not bad, h.loc, fn.name, "early-completion-data-table:%s" % fn.name,
+                    "%s hands the handler %s for (direction, error) = %s; expected read+error -> NULL, write+no error -> NULL, write+error -> the unwritten "
+                    "data, read+no error -> the data: a write cancelled before it started would report neither written nor unwritten bytes"
+                    % (fn.name, bad, sorted(bad)), sample={"fn": fn.name, "table": {str(k_): v for k_, v in got.items()}})
+    # the final delivery block: buffered read data is flushed before a failing read completes
+    fn = prog.fn("___dispatch_operation_deliver_data_block_invoke", required=False)
+    if fn is not None:
+        rep.saw(fn)
+        n += 1
+        partial = [c for c in _handler_calls(prog, fn) if c.ops[1][0] == "c" and c.ops[1][1] == 0 and c.ops[3][0] == "c" and c.ops[3][1] == 0]
+        sizes = calls_named(fn, "dispatch_data_get_size")
+        ok = bool(partial) and any(any(fn.dominates(s_, c) for s_ in sizes) for c in partial)
+        rep.require(rid, ok, fn.file, fn.name, "read-error-drops-buffered-data",
+                    "the delivery block no longer calls handler(false, data, 0) for the non-empty data a failing read had already taken from the descriptor before "
+                    "it reports handler(true, NULL, error): those bytes are consumed from the descriptor but never delivered", sample={"partial_deliveries": len(partial)})
+    if n < 3:
+        rep.unknown(rid, "fewer than 3 early-completion / delivery blocks recognised (%d)" % n)
+
+
+def rule_OD11(rep, prog):
+    rid = rep.rule("C14-OD11", "a channel that shares another channel's fd_entry holds its own reference on it: every _dispatch_io_init with an fd_entry borrowed from "
+                   "an existing channel is preceded by _dispatch_fd_entry_retain of that entry (each channel's close releases one)", floor=1)
+    n = 0
+    for fn in prog.all_functions():
+        for c in calls_named(fn, "_dispatch_io_init"):
+            l = fn.inst(list(root_ptr(fn, c.ops[1]))) if c.ops[1][0] == "i" else None
+            if l is None or l.op != "load" or "fd_entry" not in prog.fields(l):
+                continue
+            n += 1
+            rep.saw(fn)
+            ok = any(root_ptr(fn, r.ops[0]) == ("i", l.id) and fn.dominates(r, c) for r in calls_named(fn, "_dispatch_fd_entry_retain"))
+            rep.require(rid, ok, c.loc, fn.name, "shared-fd-entry-not-retained:%s" % fn.name,
+                        "%s initialises a channel with another channel's fd_entry without retaining it: closing the derived channel drops the parent's "
+                        "reference, the cleanup handlers of both run while the parent is still open and the entry is freed under it" % fn.name, sample={"init": c.loc})
+    if n < 1:
+        rep.unknown(rid, "no _dispatch_io_init with a borrowed fd_entry found")
+
+
 def run(rep, tier="quick", srcdir=None, only=None):
     prog, units = load(UNITS, tier, srcdir)
     rep.units = units
@@ -257,6 +354,10 @@ def run(rep, tier="quick", srcdir=None, only=None):
         rule_OD7(rep, prog)
     if want("C14-OD8"):
         rule_OD8(rep, prog)
+    if want("C14-TB10"):
+        rule_TB10(rep, prog)
+    if want("C14-OD11"):
+        rule_OD11(rep, prog)
 
 
 MANIFEST = {
